@@ -67,6 +67,18 @@ CHECKS["C06"] = dict(
     text="TLC starts Resume.tla from every combination of {absent, garbage, foreign, valid(any bitmap)} sidecar with {present, deleted/shortened} data file and a torn highest chunk, and refutes the pinned commit's trust in a sidecar whose data file is gone. The real code is run from each concretised state (thorough: all 392 bit flips, 49 truncations, garbage, foreign fields, truncation around every chunk boundary, torn chunks, completed-file-with-torn-last-chunk) and must end identical or fail loudly.",
     note="trusted: TLC; covers flips/truncations of one valid sidecar and sampled garbage, not arbitrary byte strings")
 
+_W = "TLA+ spec Wire.tla (record grammar: typed field lists, length prefixes, protocol stages, mutation kinds) enumerated exhaustively with TLC"
+CHECKS["C18"] = dict(
+    category="exploration", design_ref="5.13",
+    technique=_W + "; every enumerated abstract value and record sequence is concretised, encoded with the real encoder, length-checked against the spec's EncodedLen and decoded with the real decoder from whole / 1200-byte / 7-byte reads",
+    text="The specification is the frame layout; TLC enumerates every record type x variable-length boundary class x single and pairwise numeric boundary tuple (about 2600 abstract values) and all type sequences up to length 3 (thorough 4); each is concretised with seeded fillings and must round-trip through the real encoder and decoder consuming exactly the written bytes, also when the stream returns short reads. The spec acts as generator and oracle for a pure function, so the level claimed is exploration.",
+    note="trusted: TLC as enumerator; values inside the protocol's field limits only")
+CHECKS["C15"] = dict(
+    category="exploration", design_ref="5.10",
+    technique=_W + "; every (stage, record type, mutation) is concretised and fed to the real decoders and to the real receiving / sending endpoint by a scripted hostile peer, in child processes with an address-space limit",
+    text="TLC enumerates the structured mutation space (72 stage/type/mutation rows); each row is concretised with seeded fillings and run against the real record decoders and the real endpoints (RecvManifestMultiStream with a scripted sender, SendManifestMultiStream with a scripted receiver). Oracle on the real behaviour: no panic or crash (child exit status), return within 4 s after the input ended, heap growth bounded by the bytes received (plus a 3 GiB address-space limit), and no success for a stream the grammar rejects.",
+    note="trusted: TLC as enumerator, the scripted peers; structure-aware mutation, not arbitrary byte strings")
+
 NOT_APPLICABLE = {}
 
 HOOK_COMMITS = ["6b59734", "6335744"]
